@@ -1,6 +1,6 @@
-(* Model/C16_Codecs.v — a concrete runtime world: CPython's UTF-8, Latin-1 and ASCII
-   codecs (encoder + decoder, error policies strict / ignore / replace), its codec
-   name lookup restricted to these three codecs, and the NFKD/ASCII fold driven by
+(* Model/C16_Codecs.v — a concrete runtime world: CPython's UTF-8, Latin-1, ASCII,
+   UTF-16 (BOM / LE / BE), UTF-32 (BOM / LE / BE), cp1252 and koi8-r codecs (encoder + decoder, error policies strict / ignore / replace), its codec
+   name lookup restricted to these eleven codecs, and the NFKD/ASCII fold driven by
    the generated table.  Tied to CPython by correspondence (tools/props/C16.py,
    ops enc / dec / lookup / fold).  Definitions only.
 
@@ -10,7 +10,7 @@
    the first error); codec names containing non-ASCII characters. *)
 From Coq Require Import String.
 Require Import OV.Base.Bytes OV.Base.PyInt OV.Base.Str OV.Base.C16_Py.
-Require Import OV.Gen.C16_Aliases OV.Gen.C16_Fold.
+Require Import OV.Gen.C16_Aliases OV.Gen.C16_Fold OV.Gen.C16_Charmaps.
 Open Scope N_scope.
 
 Inductive policy := Strict | Ignore | Replace | UnknownPolicy.
@@ -134,17 +134,183 @@ Fixpoint ascii_dec (p : policy) (bs : bytes) : cres str :=
   | b :: t => if b <? 128 then cmap (cons b) (ascii_dec p t) else on_dec_error p (ascii_dec p t)
   end.
 
+(* ---------- UTF-16 (little / big endian code units) ----------
+   Decoder errors as CPython's utf16_decode reports them:
+     one odd byte at the end                         "truncated data"           span = that byte
+     a low surrogate where a unit starts             "illegal encoding"         span = 2, resume after it
+     a high surrogate not followed by a low one      "illegal UTF-16 surrogate" span = 2, resume AT the next unit
+     a high surrogate with fewer than 2 bytes left   "unexpected end of data"   span = everything left
+   Encoder: lone surrogates (and anything >= 0x110000) are errors; 'replace' writes '?' as a code unit. *)
+Definition unit_bytes (le : bool) (u : N) : bytes :=
+  if le then [u mod 256; u / 256] else [u / 256; u mod 256].
+Definition unit_val (le : bool) (b0 b1 : N) : N := if le then b0 + 256 * b1 else b1 + 256 * b0.
+Definition is_high (u : N) : bool := (55296 <=? u) && (u <=? 56319).
+Definition is_low (u : N) : bool := (56320 <=? u) && (u <=? 57343).
+
+Definition on_enc_error_with (rep : bytes) (p : policy) (k : cres bytes) : cres bytes :=
+  match p with
+  | Strict => CExn EUnicodeEncodeError
+  | Ignore => k
+  | Replace => cmap (app rep) k
+  | UnknownPolicy => CExn ELookupError
+  end.
+
+Definition utf16_enc1 (le : bool) (c : N) : option bytes :=
+  if scalar c then
+    if c <? 65536 then Some (unit_bytes le c)
+    else Some (unit_bytes le (55296 + (c - 65536) / 1024) ++ unit_bytes le (56320 + (c - 65536) mod 1024))
+  else None.
+
+Fixpoint utf16_enc (le : bool) (p : policy) (s : str) : cres bytes :=
+  match s with
+  | [] => COk []
+  | c :: t => match utf16_enc1 le c with
+              | Some bs => cmap (app bs) (utf16_enc le p t)
+              | None => on_enc_error_with (unit_bytes le 63) p (utf16_enc le p t)
+              end
+  end.
+
+Fixpoint utf16_dec (le : bool) (p : policy) (bs : bytes) : cres str :=
+  match bs with
+  | [] => COk []
+  | b0 :: r0 =>
+    match r0 with
+    | [] => on_dec_error p (COk [])
+    | b1 :: r1 =>
+      let u := unit_val le b0 b1 in
+      if is_low u then on_dec_error p (utf16_dec le p r1)
+      else if is_high u then
+        match r1 with
+        | [] => on_dec_error p (COk [])
+        | b2 :: r2 =>
+          match r2 with
+          | [] => on_dec_error p (COk [])
+          | b3 :: r3 =>
+            let u2 := unit_val le b2 b3 in
+            if is_low u2 then cmap (cons (65536 + (u - 55296) * 1024 + (u2 - 56320))) (utf16_dec le p r3)
+            else on_dec_error p (utf16_dec le p r1)
+          end
+        end
+      else cmap (cons u) (utf16_dec le p r1)
+    end
+  end.
+
+(* 'utf-16': the encoder writes a BOM in the machine's byte order; the decoder honours a leading BOM of
+   either order (and drops it), else assumes the machine's order *)
+Definition utf16_bom_enc (p : policy) (s : str) : cres bytes :=
+  cmap (app (unit_bytes native_le 65279)) (utf16_enc native_le p s).
+Definition utf16_bom_dec (p : policy) (bs : bytes) : cres str :=
+  match bs with
+  | b0 :: b1 :: r =>
+      if (b0 =? 255) && (b1 =? 254) then utf16_dec true p r
+      else if (b0 =? 254) && (b1 =? 255) then utf16_dec false p r
+      else utf16_dec native_le p bs
+  | _ => utf16_dec native_le p bs
+  end.
+
+(* ---------- UTF-32 ----------
+   Decoder errors: a 4-byte unit in the surrogate range or >= 0x110000 (span 4); 1..3 bytes left at the
+   end ("truncated data", span = what is left). *)
+Definition u32_bytes (le : bool) (c : N) : bytes :=
+  if le then [c mod 256; (c / 256) mod 256; (c / 65536) mod 256; c / 16777216]
+  else [c / 16777216; (c / 65536) mod 256; (c / 256) mod 256; c mod 256].
+Definition u32_val (le : bool) (b0 b1 b2 b3 : N) : N :=
+  if le then b0 + 256 * b1 + 65536 * b2 + 16777216 * b3 else b3 + 256 * b2 + 65536 * b1 + 16777216 * b0.
+
+Fixpoint utf32_enc (le : bool) (p : policy) (s : str) : cres bytes :=
+  match s with
+  | [] => COk []
+  | c :: t => if scalar c then cmap (app (u32_bytes le c)) (utf32_enc le p t)
+              else on_enc_error_with (u32_bytes le 63) p (utf32_enc le p t)
+  end.
+
+Fixpoint utf32_dec (le : bool) (p : policy) (bs : bytes) : cres str :=
+  match bs with
+  | [] => COk []
+  | b0 :: r0 =>
+    match r0 with
+    | [] => on_dec_error p (COk [])
+    | b1 :: r1 =>
+      match r1 with
+      | [] => on_dec_error p (COk [])
+      | b2 :: r2 =>
+        match r2 with
+        | [] => on_dec_error p (COk [])
+        | b3 :: r3 =>
+          let c := u32_val le b0 b1 b2 b3 in
+          if scalar c then cmap (cons c) (utf32_dec le p r3) else on_dec_error p (utf32_dec le p r3)
+        end
+      end
+    end
+  end.
+
+Definition utf32_bom_enc (p : policy) (s : str) : cres bytes :=
+  cmap (app (u32_bytes native_le 65279)) (utf32_enc native_le p s).
+Definition utf32_bom_dec (p : policy) (bs : bytes) : cres str :=
+  match bs with
+  | b0 :: b1 :: b2 :: b3 :: r =>
+      if (b0 =? 255) && (b1 =? 254) && (b2 =? 0) && (b3 =? 0) then utf32_dec true p r
+      else if (b0 =? 0) && (b1 =? 0) && (b2 =? 254) && (b3 =? 255) then utf32_dec false p r
+      else utf32_dec native_le p bs
+  | _ => utf32_dec native_le p bs
+  end.
+
+(* ---------- single-byte codecs given by a decoding table (cp1252, koi8-r) ----------
+   Decoding: an undefined byte is an error of span 1.  Encoding: the first byte the table maps to the
+   character (the generator checks that this is CPython's encoder and that 'replace' writes '?'). *)
+Definition table_get (tbl : list (option N)) (b : N) : option N := nth (N.to_nat b) tbl None.
+Fixpoint find_index (c : N) (tbl : list (option N)) (i : N) : option N :=
+  match tbl with
+  | [] => None
+  | Some x :: r => if x =? c then Some i else find_index c r (i + 1)
+  | None :: r => find_index c r (i + 1)
+  end.
+Fixpoint charmap_dec (tbl : list (option N)) (p : policy) (bs : bytes) : cres str :=
+  match bs with
+  | [] => COk []
+  | b :: t => match table_get tbl b with
+              | Some c => cmap (cons c) (charmap_dec tbl p t)
+              | None => on_dec_error p (charmap_dec tbl p t)
+              end
+  end.
+Fixpoint charmap_enc (tbl : list (option N)) (p : policy) (s : str) : cres bytes :=
+  match s with
+  | [] => COk []
+  | c :: t => match find_index c tbl 0 with
+              | Some b => cmap (cons b) (charmap_enc tbl p t)
+              | None => on_enc_error p (charmap_enc tbl p t)
+              end
+  end.
+
 Definition enc3 (c : codec_id) (s : str) (errors : str) : cres bytes :=
+  let p := policy_of errors in
   match c with
-  | CUtf8 => utf8_enc (policy_of errors) s
-  | CLatin1 => narrow_enc 256 (policy_of errors) s
-  | CAscii => narrow_enc 128 (policy_of errors) s
+  | CUtf8 => utf8_enc p s
+  | CLatin1 => narrow_enc 256 p s
+  | CAscii => narrow_enc 128 p s
+  | CUtf16 => utf16_bom_enc p s
+  | CUtf16LE => utf16_enc true p s
+  | CUtf16BE => utf16_enc false p s
+  | CUtf32 => utf32_bom_enc p s
+  | CUtf32LE => utf32_enc true p s
+  | CUtf32BE => utf32_enc false p s
+  | CCp1252 => charmap_enc cp1252_table p s
+  | CKoi8R => charmap_enc koi8r_table p s
   end.
 Definition dec3 (c : codec_id) (b : bytes) (errors : str) : cres str :=
+  let p := policy_of errors in
   match c with
-  | CUtf8 => utf8_dec (policy_of errors) b
+  | CUtf8 => utf8_dec p b
   | CLatin1 => COk b
-  | CAscii => ascii_dec (policy_of errors) b
+  | CAscii => ascii_dec p b
+  | CUtf16 => utf16_bom_dec p b
+  | CUtf16LE => utf16_dec true p b
+  | CUtf16BE => utf16_dec false p b
+  | CUtf32 => utf32_bom_dec p b
+  | CUtf32LE => utf32_dec true p b
+  | CUtf32BE => utf32_dec false p b
+  | CCp1252 => charmap_dec cp1252_table p b
+  | CKoi8R => charmap_dec koi8r_table p b
   end.
 
 (* ---------- codecs.lookup for ASCII names ----------
